@@ -27,18 +27,6 @@ package ecs
 // Callback frame (DESIGN 3.4): observer callbacks run under the world lock, so they cannot
 // complete a structural operation (C07); what they may touch (component values, observer and
 // filter registrations, their own queries) is outside the state these contracts describe.
-//@ func (*observerManager).FireRemoveEntity
-//@   serves C09
-//@   trusted
-//@   requires mask != nil
-//@   modifies nothing
-
-//@ func (*observerManager).FireRemoveEntityRel
-//@   serves C09
-//@   trusted
-//@   requires mask != nil
-//@   modifies nothing
-
 //@ func (*storage).cleanupArchetypes
 //@   serves C04
 //@   trusted
